@@ -318,9 +318,32 @@ def random_pair(rng):
     rng.shuffle(names)
     old = [random_group(rng, n) for n in names[:rng.choice([0, 1, 2, 3, 4])]]
     new = copy.deepcopy(old)
+    edits = _random_edits(rng, new, names, rng.choice([0, 1, 1, 2, 3]))
+    flat = lambda gs: [s for g in gs for s in g]
+    return flat(old), flat(new), edits
+
+
+def random_chain(rng, steps):
+    """a start configuration and `steps` successive small edits of it (each a list of sections)"""
+    names = ['a', 'b', 'c', 'd', 'e', 'f']
+    rng.shuffle(names)
+    cur = [random_group(rng, n) for n in names[:rng.choice([1, 2, 3])]]
+    flat = lambda gs: [s for g in gs for s in g]
+    out = [flat(cur)]
+    labels = []
+    for _ in range(steps):
+        cur = copy.deepcopy(cur)
+        labels += _random_edits(rng, cur, names, rng.choice([1, 1, 1, 2]), kinds=['option', 'option', 'option', 'option', 'add',
+                                                                                  'remove', 'numprocs'])
+        out.append(flat(cur))
+    return out, labels
+
+
+def _random_edits(rng, new, names, count, kinds=None):
+    """edit the list of groups `new` in place; returns the kinds of edits made"""
     edits = []
-    for _ in range(rng.choice([0, 1, 1, 2, 3])):
-        k = rng.choice(['option', 'option', 'option', 'add', 'remove', 'rename', 'regen', 'shuffle', 'numprocs'])
+    for _ in range(count):
+        k = rng.choice(kinds or ['option', 'option', 'option', 'add', 'remove', 'rename', 'regen', 'shuffle', 'numprocs'])
         edits.append(k)
         if k == 'add' or not new:
             free = [n for n in names if n not in [group_name_of(g) for g in new]]
@@ -381,8 +404,7 @@ def random_pair(rng):
             if kind == 'eventlistener' and 'events' not in d:
                 o.append(('events', 'TICK_5'))
             g[j] = (hdr, o)
-    flat = lambda gs: [s for g in gs for s in g]
-    return flat(old), flat(new), edits
+    return edits
 
 
 # ------------------------------------------------------------------ corruption
@@ -645,4 +667,41 @@ def format_corruption_cases(base, tier):
                 if sec == 'rpcinterface:x' and opt == 'extra':
                     body.append(('supervisor.rpcinterface_factory', 'supervisor.rpcinterface:make_main_rpcinterface'))
                 add('format:%s:%s=%s' % (sec, opt, tmpl % p), good, good, False, tail=render([(sec, body)]))
+    return out
+
+
+# ------------------------------------------------------------- reread sequences
+
+def reread_sequences(tier):
+    """(label, [sections of step 0, step 1, step 2]): the daemon starts from step 0, then the file is
+    edited and reread twice with no update in between.  `fresh`: the group under edit is not active
+    (it appears in step 1); `active`: it is active from step 0 on."""
+    quick = tier == 'quick'
+    out = []
+    tables = [(PROGRAM_OPTIONS, ['program', 'listener', 'fcgi', 'member']), (POOL_OPTIONS, ['listener']),
+              (FCGI_OPTIONS, ['fcgi']), (GROUP_OPTIONS, ['group']), (MULTI_OPTIONS, ['program_n'])]
+    important = ('stdout_logfile', 'stderr_logfile', 'environment', 'command', 'priority', 'serverurl', 'socket_mode',
+                 'buffer_size', 'events', 'programs', 'numprocs')
+    for table, hosts in tables:
+        for option, vals in sorted(table.items()):
+            for h in hosts:
+                if option == 'redirect_stderr' and h == 'listener':
+                    continue
+                if option == 'priority' and h == 'listener' and table is PROGRAM_OPTIONS:
+                    continue
+                if h != hosts[0] and option not in LOGFILE_OPTIONS + ('environment',):
+                    continue
+                if quick and h != hosts[0] and option not in LOGFILE_OPTIONS:
+                    continue
+                for (t1, k1) in vals:
+                    for (t2, k2) in vals:
+                        if t1 is t2:
+                            continue
+                        s1, _ = host(h, option, t1)
+                        s2, _ = host(h, option, t2)
+                        out.append(('seq:fresh:%s:%s:%r' % (h, option, [t1, t2]), [[BYSTANDER], s1, s2]))
+                        if option in important or not quick:
+                            for (t0, k0) in vals[:2]:
+                                s0, _ = host(h, option, t0)
+                                out.append(('seq:active:%s:%s:%r' % (h, option, [t0, t1, t2]), [s0, s1, s2]))
     return out
